@@ -292,10 +292,18 @@ class ExprMixin2:
             ii = self.as_int(i)
             return self._indexed(st, ii, n, lambda s, j: (V("str", z3.SubString(v.t, j, 1)) if v.k == "str"
                                                           else V("int", z3.BV2Int(v.t[j]))))
-        if v.k == "ref" and v.cls and self.repo.has_class(v.cls):
-            return self.call_method(v, "__getitem__", [i], {}, st, node)
-        if v.k == "val" and v.cls and self.repo.has_class(v.cls):
-            return self.call_method(self.unbox(v.t, v.cls, st), "__getitem__", [i], {}, st, node)
+        if v.k in ("ref", "val") and v.cls and self.repo.has_class(v.cls):
+            recv = v if v.k == "ref" else self.unbox(v.t, v.cls, st)
+            res = self.call_method(recv, "__getitem__", [i], {}, st, node)
+            ri = None
+            for k in self.repo.cls(v.cls)["mro"]:
+                c = self.contracts.get(f"{k}.__getitem__")
+                if c is not None:
+                    ri = getattr(c, "returns_for_index", None)
+                    break
+            if ri and i.k in ("int", "bool"):
+                res = [(s2, self.coerce(x, ri, s2) if (x is not None and s2.status == "run" and x.k == "val") else x) for s2, x in res]
+            return res
         if v.k in ("ref", "val") and (v.cls, "__getitem__") in self.ext_methods:
             return self.ext_methods[(v.cls, "__getitem__")](self, st, v, [i], {}, node)
         if (v.k == "ref" and v.cls == "dict") or (v.k == "val" and v.cls == "dict"):
@@ -401,7 +409,17 @@ class ExprMixin2:
             stp = 1
         if v.k in ("ref", "val") and v.cls and self.repo.has_class(v.cls):
             recv = v if v.k == "ref" else self.unbox(v.t, v.cls, st)
-            return self.call_method(recv, "__getitem__", [V("slice", xs=(lo, hi, step))], {}, st, node)
+            res = self.call_method(recv, "__getitem__", [V("slice", xs=(lo, hi, step))], {}, st, node)
+            # a __getitem__ contract may state what a *slice* returns (the declared type of a piece of the underlying container)
+            rs = None
+            for k in self.repo.cls(v.cls)["mro"]:
+                c = self.contracts.get(f"{k}.__getitem__")
+                if c is not None:
+                    rs = getattr(c, "returns_for_slice", None)
+                    break
+            if rs:
+                res = [(s2, self.coerce(x, rs, s2) if (x is not None and s2.status == "run") else x) for s2, x in res]
+            return res
         if v.k in ("str", "bytes"):
             n = z3.Length(v.t)
             a, b = self._bounds(lo, hi, n)
